@@ -141,24 +141,18 @@ def f_set(eng, s, args, kw):
 def set_from_seq(eng, s, seq):
     """fresh set with membership = elements of seq; order of first occurrence"""
     ref = eng.alloc(s, "set")
-    h = s.heap.havoc(["dlen", "dkeys", "dhas", "didx", "dval"], [], "set")
-    h.alloc = s.heap.alloc
-    r = z3.Int("fr_r")
-    for k in ("dlen", "dkeys", "dhas", "didx", "dval"):
-        s.assume(z3.ForAll([r], z3.Implies(r != ref, z3.Select(h.arr[k], r) == z3.Select(s.heap.arr[k], r)),
-                           patterns=[z3.Select(h.arr[k], r)]))
+    h, d = s.heap.fresh_dict_at(ref, "set")
     s.heap = h
     kk = z3.Const("sk", Val)
     i = z3.Int("si")
     first = z3.Function(smt.fresh_name("set_first"), Val, smt.I)
-    s.assume(*h.dict_wf(ref))
-    s.assume(h.dlen(ref) <= seq.n, seq.n >= 0,
-             z3.ForAll([i], z3.Implies(z3.And(0 <= i, i < seq.n), h.dhas(ref, z3.Select(seq.arr, i))),
+    s.assume(*d.wf())
+    s.assume(d.n <= seq.n, seq.n >= 0,
+             z3.ForAll([i], z3.Implies(z3.And(0 <= i, i < seq.n), d.has(z3.Select(seq.arr, i))),
                        patterns=[z3.Select(seq.arr, i)]),
-             z3.ForAll([kk], z3.Implies(h.dhas(ref, kk),
-                                        z3.And(0 <= first(kk), first(kk) < seq.n,
-                                               z3.Select(seq.arr, first(kk)) == kk)),
-                       patterns=[h.dhas(ref, kk)]))
+             z3.ForAll([kk], z3.Implies(d.has(kk), z3.And(0 <= first(kk), first(kk) < seq.n,
+                                                          z3.Select(seq.arr, first(kk)) == kk)),
+                       patterns=[d.has(kk)]))
     return sv_ref(ref, "set")
 
 
@@ -571,6 +565,12 @@ def m_dict_values(eng, s, d, args, kw):
     h = s.heap
     s.assume(*h.dict_wf(d.ref))
     ref = d.ref
+    n = smt.simp(h.dlen(ref))
+    if z3.is_int_value(n) and n.as_long() <= 8:
+        arr = z3.K(smt.I, VNone)
+        for j in range(n.as_long()):
+            arr = z3.Store(arr, j, smt.simp(h.dget(ref, smt.simp(z3.Select(h.dkeys(ref), j)))))
+        return [(SeqView(n, arr), s)]
     arr = fresh("vals", smt.ArrIV)
     i = z3.Int("dv_i")
     s.assume(z3.ForAll([i], z3.Implies(z3.And(0 <= i, i < h.dlen(ref)),
